@@ -298,7 +298,7 @@ func (x *Exec) intrinsic(fr *Frame, ins ssa.Instruction, fn *ssa.Function, args 
 				Fn: x.targetName(), nAssume: len(x.assumes), goal: ts.And(st.guard, c), IsCover: true})
 		}
 		return nil
-	case "Forall", "Exists", "Forall2", "Exists2":
+	case "Forall", "Exists", "Forall2", "Exists2", "ForallAny":
 		cl, ok := args[0].(*Closure)
 		var f *ssa.Function
 		var binds []Value
@@ -316,7 +316,14 @@ func (x *Exec) intrinsic(fr *Frame, ins ssa.Instruction, fn *ssa.Function, args 
 			b := ts.BoundAt(p.Name(), x.w.sortOf(p.Type()), x.quantDepth)
 			bvars = append(bvars, b)
 			bargs = append(bargs, b)
-			facts = append(facts, x.w.validFacts(b, p.Type(), st.alloc, 0))
+			if name == "ForallAny" {
+				// axiom-style quantifier: over every reference, allocated or not
+				if b.sort == SInt {
+					facts = append(facts, x.w.intLe(ts.IntLit(0), b))
+				}
+			} else {
+				facts = append(facts, x.w.validFacts(b, p.Type(), st.alloc, 0))
+			}
 		}
 		sub := st.clone()
 		sub.guard = ts.True()
@@ -362,6 +369,24 @@ func (x *Exec) intrinsic(fr *Frame, ins ssa.Instruction, fn *ssa.Function, args 
 			x.declaredAll = true
 		}
 		return nil
+	case "ModifiesContents":
+		// slice: its backing row; map: the contents of maps of that type
+		if mt, ok := fn.Params[0].Type().Underlying().(*types.Map); ok {
+			dn, vn, ln, ks, vs := x.mapComps(mt)
+			x.comp(st, dn, SArr(SInt, SArr(ks, SBool)))
+			x.comp(st, vn, SArr(SInt, SArr(ks, vs)))
+			x.comp(st, ln, SArr(SInt, SBV(64)))
+			m, _ := args[0].(*Term)
+			for _, cn := range []string{dn, vn, ln} {
+				if x.useMode > 0 {
+					x.pendingRows = append(x.pendingRows, modEntry{rowOf: m, comp: cn})
+				} else {
+					x.declaredModifies = append(x.declaredModifies, modEntry{rowOf: m, comp: cn})
+				}
+			}
+			return nil
+		}
+		fallthrough
 	case "ModifiesElems":
 		// whole backing row of a slice
 		s := args[0].(*Term)
@@ -393,6 +418,12 @@ func (x *Exec) intrinsic(fr *Frame, ins ssa.Instruction, fn *ssa.Function, args 
 		rt := fn.Signature.Results().At(0).Type()
 		r := x.w.Fun("ghost_"+sanitize(gname), x.w.sortOf(rt), a)
 		return r
+	case "SameRef":
+		a, b := args[0].(*Term), args[1].(*Term)
+		if a.sort == SSlice {
+			return ts.Eq(x.w.sArr(a), x.w.sArr(b))
+		}
+		return ts.Eq(a, b)
 	case "Disjoint":
 		// the two slices do not share a backing array
 		a, b := args[0].(*Term), args[1].(*Term)
